@@ -62,6 +62,30 @@ def ob_call(report):
             p.mem[('H', f'slot({vname(ent)})', 'Arc<Semaphore>')] = Sym(f'sem({vname(ent)})', 'Arc<Semaphore>')
             k(p, Sym(f'slotref({vname(ent)})', 'RefMut').with_ov('cell', Ptr(('H', f'slot({vname(ent)})', 'Arc<Semaphore>'))))
 
+        def m_or_insert(ex, p, call, k):
+            # Entry::or_insert(value): the slot keeps the value already in the map, or takes `value`; what it returns is the slot of the map
+            ent = call.args[0]
+            made = tuple(e.args[0] for e in p.events if e.kind == 'sem-new')
+            p.events.append(Event('or-insert', 'or_insert', (ent, made, 1)))
+            p.mem[('H', f'slot({vname(ent)})', 'Arc<Semaphore>')] = Sym(f'sem({vname(ent)})', 'Arc<Semaphore>')
+            k(p, Sym(f'slotref({vname(ent)})', 'RefMut').with_ov('cell', Ptr(('H', f'slot({vname(ent)})', 'Arc<Semaphore>'))))
+
+        def m_get(ex, p, call, k):
+            # DashMap::get(key): Some(reference to the slot of the map) | None
+            m = ex.deref(p, call.args[0])
+            key = ex.deref(p, call.args[1]) if isinstance(call.args[1], Ptr) else call.args[1]
+            name = f'entry[{vname(m)},{vname(key)}]'
+            q = p.clone()
+            hit = z3.Bool(f'present({name})')
+            p.pc.append(hit)
+            p.events.append(Event('entry', 'DashMap::get', (m, key)))
+            p.events.append(Event('lookup-hit', 'DashMap::get', (Sym(name, 'Entry'),)))
+            p.mem[('H', f'slot({name})', 'Arc<Semaphore>')] = Sym(f'sem({name})', 'Arc<Semaphore>')
+            k(p, MD.some(Sym(f'slotref({name})', 'Ref').with_ov('cell', Ptr(('H', f'slot({name})', 'Arc<Semaphore>')))))
+            q.pc.append(z3.Not(hit))
+            q.events.append(Event('lookup-miss', 'DashMap::get', (m, key)))
+            k(q, MD.NONE)
+
         def m_value(ex, p, call, k):
             s = ex.deref(p, call.args[0])
             c = s.get_ov('cell') if isinstance(s, Sym) else None
@@ -94,7 +118,8 @@ def ob_call(report):
         def m_inner_call(ex, p, call, k):
             p.events.append(Event('inner-call', 'Service::call', (ex.deref(p, call.args[0]), call.args[1])))
             k(p, Sym('inner_future', 'F'))
-        models = [(r'Request::peer_id$', m_peer_id), (r'DashMap::entry$', m_entry), (r'Entry::or_insert_with$', m_or_insert_with), (r'RefMut::value$|<(\w+::)*RefMut as Deref(Mut)?>::deref(_mut)?$', m_value),
+        models = [(r'Request::peer_id$', m_peer_id), (r'DashMap::entry$', m_entry), (r'Entry::or_insert_with$', m_or_insert_with), (r'Entry::or_insert$', m_or_insert), (r'DashMap::get$', m_get),
+                  (r'Ref(Mut)?::value$|<(\w+::)*Ref(Mut)? as Deref(Mut)?>::deref(_mut)?$', m_value),
                   (r'Semaphore::new$', m_sem_new), (r'Semaphore::acquire(_owned)?$', m_acquire), (r'Semaphore::try_acquire(_owned)?$', m_try_acquire),
                   (r'<Arc as Deref>::deref$', m_arc_deref), (r'<S as Service>::call$', m_inner_call)]
         ex = e2.executor('anemo-tower', models, max_depth=2)
@@ -140,9 +165,13 @@ def ob_call(report):
             if len(ent) != 1 or vname(ent[0].args[0]) != f'gen.{i_map}.deref' or not (isinstance(ent[0].args[1], z3.ExprRef) and e2.solve(r.pc + [ent[0].args[1] != sender], want_model=False)[0] == 'unsat'):
                 return viol(ob, [ex], f'the semaphore is not looked up in the layer\'s shared table under the request\'s own peer id: {[repr(e)[:120] for e in ent]}', 'call-key', path_summary(r), len(res))
             oi = [e for e in evs if e.kind == 'or-insert']
-            if len(oi) != 1 or len(oi[0].args[1]) != 1 or vname(oi[0].args[1][0]) != f'gen.{i_max}':
-                return viol(ob, [ex], f'a new peer\'s semaphore is not created with max_inflight permits: {[vrepr(x) for x in (oi[0].args[1] if oi else [])]}', 'call-capacity', path_summary(r), len(res))
-            semname = f'sem({vname(oi[0].args[0])})'
+            hits = [e for e in evs if e.kind == 'lookup-hit']
+            if hits and not oi:
+                semname = f'sem({vname(hits[0].args[0])})'        # the peer's semaphore was found by a plain lookup: nothing to create
+            else:
+                if len(oi) != 1 or len(oi[0].args[1]) != 1 or vname(oi[0].args[1][0]) != f'gen.{i_max}':
+                    return viol(ob, [ex], f'a new peer\'s semaphore is not created with max_inflight permits: {[vrepr(x) for x in (oi[0].args[1] if oi else [])]}', 'call-capacity', path_summary(r), len(res))
+                semname = f'sem({vname(oi[0].args[0])})'
             acq = [i for i, e in enumerate(evs) if e.kind in ('acquire', 'try-acquire')]
             if len(acq) != 1 or vname(evs[acq[0]].args[0]) != semname:
                 return viol(ob, [ex], 'permit is not acquired exactly once from this peer\'s semaphore', 'call-acquire', path_summary(r), len(res))
